@@ -96,12 +96,14 @@ META = {
    assumptions=COMMON_ASSUME,
  ),
  'C18': dict(
+   claimed=False, na_reason='harness C18_request.cpp exists; symbolic token lengths in std::string/getline code exceed the solver cap even at length 2; not claimed until a profile passes',
    level_text='Bounded model checking of the real RequestImpl::split and RequestImpl::add: for every command line / URI of the stated lengths over the stated alphabets the result equals a reference tokenizer / single-pass percent decoder written from the statement.',
    level_note='Trusted: clang-14 lowering, ll2c, models/string.c, sstream.c (istringstream/getline), libc.c (mini sscanf: any directive other than %1x in the format is reported). Outside: executeGet path containment under the HTML root, MQTT topic template matching (StringReplacer), unterminated quotes, malformed escapes.',
    outside_claim='HTML-root containment in MainLoop::executeGet, MQTT topic round trip, lines/URIs longer than the bound, unterminated quotes, malformed percent escapes',
    assumptions=COMMON_ASSUME,
  ),
  'C15': dict(
+   claimed=False, na_reason='harness C15_lookup.cpp exists; CBMC symex does not finish on the full DirectProtocolHandler object within the cap (value-set/guard blow-up); not claimed until a profile passes',
    level_text='Bounded model checking of the real answer registration and lookup (setAnswer/getAnswer/createAnswerKey on a real DirectProtocolHandler): for every pair of registrations and every received telegram within the bounds the lookup result equals an independent longest-matching-prefix reference; shift counts and indices are checked for every NN.',
    level_note=BUS_NOTE + ' Only the lookup kernel is encoded; the on-wire ACK/response exchange (bs_sendCmdAck...) is outside this check.',
    outside_claim='the on-wire answer exchange (ACK, response bytes, NAK repetition), more than 2 registrations, NN above the bound, CLI parsing of --answer',
